@@ -205,7 +205,7 @@ def task_helper_fp(m, tier, seed):
     return part.d
 
 
-def task_generated(p, key, k, tier, seed):
+def task_generated(p, key, k, tier, seed, config_form="auto"):
     """(v) generated sensor_model: reject leaf <=> specification, outputs = inputs; disabled -> no reject leaf.
     Also (python decision == generated C++ decision) through the shared specification."""
     from .c06 import spec_decision
@@ -219,10 +219,10 @@ def task_generated(p, key, k, tier, seed):
     zin = {r: z3.Real(f"z_{key}_{r}") for r in rs}
     hspec, aH = pyh.spec_sensor(p, key, env)
     _, _, _, _, assumes = __import__("checks.c02", fromlist=["spec_pieces"]).spec_pieces(p, env)
-    key_base = f"cpp/generated/{p.id}/{key}/k={k}"
+    key_base = f"cpp/generated/{p.id}/{key}/k={k}" + ("" if config_form == "auto" else f"/config={config_form}")
     tmo = tier_timeout_ms(tier)
     try:
-        cf = CppFilter(p, ekf=True, cse=True, k=k)
+        cf = CppFilter(p, ekf=True, cse=True, k=k, config_form=config_form)
         cf.__enter__()
     except Exception as ex:
         part.harness_error(f"{key_base}: generation failed: {ex}")
@@ -247,7 +247,7 @@ def task_generated(p, key, k, tier, seed):
             part.record(Q("unsat" if ok else "sat", None, 0.0, ""), f"{key_base}: filtering disabled => single path, no reject leaf")
             if not ok:
                 e = {nm: 0.5 for nm in env}
-                path = write_replay(PID, {"key": key_base + "/rejects-when-disabled", "info": {"kind": "cpp-generated", "program": p.id, "sensor": key, "k": k}, "inputs": e})
+                path = write_replay(PID, {"key": key_base + "/rejects-when-disabled", "info": {"kind": "cpp-generated", "program": p.id, "sensor": key, "k": k, "config_form": config_form}, "inputs": e})
                 part.violation(key_base + "/rejects-when-disabled", f"generated filter has {len(leaves)} paths although filtering is disabled", path)
             return part.d
         if len(rej) != 1 or len(acc) != 1:
@@ -260,7 +260,7 @@ def task_generated(p, key, k, tier, seed):
                 outs, _, _ = cf.run_concrete(f"update:{key}", _cpp_inputs(p, e))
                 changed = [s for s in ss if outs[f"x_{s}"] != e[s]]
                 if changed:
-                    path = write_replay(PID, {"key": key_base + "/discard-changes-estimate", "info": {"kind": "cpp-generated", "program": p.id, "sensor": key, "k": k}, "inputs": e, "outs": outs})
+                    path = write_replay(PID, {"key": key_base + "/discard-changes-estimate", "info": {"kind": "cpp-generated", "program": p.id, "sensor": key, "k": k, "config_form": config_form}, "inputs": e, "outs": outs})
                     part.violation(key_base + "/discard-changes-estimate", f"generated C++ filter changed the estimate for a reading far beyond the threshold (k={k})", path)
                     return part.d
             part.harness_error(f"{key_base}: expected one reject (outputs identical to inputs) and one accept leaf, got {len(rej)}/{len(acc)} of {len(leaves)}")
@@ -292,7 +292,7 @@ def task_generated(p, key, k, tier, seed):
                 want_reject = nis > k * math.sqrt(2 * m) + m
                 part.d["witnesses"] += 1
                 if unchanged != want_reject:
-                    path = write_replay(PID, {"key": key_base + "/decision", "info": {"kind": "cpp-generated", "program": p.id, "sensor": key, "k": k}, "inputs": e, "nis": nis, "unchanged": unchanged})
+                    path = write_replay(PID, {"key": key_base + "/decision", "info": {"kind": "cpp-generated", "program": p.id, "sensor": key, "k": k, "config_form": config_form}, "inputs": e, "nis": nis, "unchanged": unchanged})
                     part.violation(key_base + "/decision", f"generated C++ filter {'discarded' if unchanged else 'applied'} a reading with NIS={nis:.4g} (threshold {k * math.sqrt(2 * m) + m:.4g})", path)
                     found = True
                     break
@@ -303,7 +303,7 @@ def task_generated(p, key, k, tier, seed):
             nm = f"innov_{key}_{r}"
             if nm not in lr.out:
                 e = {k2: 0.5 for k2 in env}
-                path = write_replay(PID, {"key": key_base + "/innovation-on-reject", "info": {"kind": "cpp-generated", "program": p.id, "sensor": key, "k": k}, "inputs": e})
+                path = write_replay(PID, {"key": key_base + "/innovation-on-reject", "info": {"kind": "cpp-generated", "program": p.id, "sensor": key, "k": k, "config_form": config_form}, "inputs": e})
                 part.violation(key_base + "/innovation-on-reject", "generated C++ filter does not record the innovation of a discarded reading", path)
                 break
             prove_equal(part, PID, f"{key_base}: innovation[{r}] recorded on the reject path == z-h", lr.out[nm], inn_spec[i], assumes + lr.pc, tmo, key=key_base + "/innovation-on-reject")
@@ -320,7 +320,7 @@ def tasks(tier, seed):
     t = [(task_helper, (m, tier, seed)) for m in ms]
     t += [(task_helper_fp, (m, tier, seed)) for m in ([2, 3, 5] if tier == "quick" else [1, 2, 3, 4, 5, 6, 8])]
     if tier == "quick":
-        t += [(task_generated, (CP.P3(), "two", 3.0, tier, seed)), (task_generated, (CP.P3(), "one", None, tier, seed)), (task_generated, (CP.P8(), "wide", 5.0, tier, seed))]
+        t += [(task_generated, (CP.P3(), "two", 3.0, tier, seed)), (task_generated, (CP.P3(), "one", None, tier, seed, "dict")), (task_generated, (CP.P3(), "one", None, tier, seed, "object")), (task_generated, (CP.P8(), "wide", 5.0, tier, seed, "dict"))]
     else:
         for p in (CP.P1(), CP.P3(), CP.P8(), CP.P10()):
             for key in p.sensors:
@@ -363,7 +363,7 @@ def replay(r):
     for i, a in enumerate(ss):
         for b in ss[i:]:
             e.setdefault(f"P_{a}_{b}", 1.0 if a == b else 0.0)
-    with CppFilter(p, ekf=True, cse=True, k=k) as cf:
+    with CppFilter(p, ekf=True, cse=True, k=k, config_form=info.get("config_form", "auto")) as cf:
         outs, _, notes = cf.run_concrete(f"update:{key}", _cpp_inputs(p, e))
     unchanged = all(outs[f"x_{s}"] == e[s] for s in ss)
     sp = spec_float(p, key, e)
